@@ -1141,6 +1141,10 @@ def annotate_closures(u, fnpath, text, log):
 def process_fn(u, fnpath, text, log, origin, canary=None):
     """apply R1,R2,R4,substs; splice spec/loop/hints.  returns new text and clause line info"""
     settings = u.settings
+    # per-function override: `@@ set format@<fnpath> keep|stub|stubdrop`
+    if ("format@" + fnpath) in settings:
+        settings = dict(settings)
+        settings["format"] = settings["format@" + fnpath]
     text = rewrite_quals(text, log, fnpath)
     text = demut_params(text, log, fnpath)
     text = rewrite_macros(text, log, fnpath, settings)
